@@ -185,6 +185,12 @@ def esmRefused : List String := [
 /-- C14 "collateral withdrawal is possible only until the cool-off period ends" -/
 def coolOffRefused : List String := ["vault.MsgWithdraw"]
 
+/-- C14 "whenever the oracle price needed by an operation is missing or inactive, that operation fails without any state change":
+the operations that value an amount in dollars (collateral ratio, LTV, supply cap) while ESM has not been executed -/
+def priceNeeded : List String := [
+  "vault.MsgCreate", "vault.MsgWithdraw", "vault.MsgDraw", "vault.MsgDepositAndDraw",
+  "lend.Lend", "lend.Deposit", "lend.Borrow", "lend.Draw", "lend.BorrowAlternate"]
+
 /-- C12 kill switch -/
 def adminOnly : List String := ["esm.MsgKillSwitch"]
 
